@@ -23,9 +23,11 @@ Hypotheses, and where they come from:
 Compared "up to the canonical order of the outputs":
 * `HashMap` outputs (`UnitIdsOutput.rules`, `first_ten_failures`, `first_ten_errors`) as finite maps:
   `lookup id` agrees for every id (and the association lists are permutations of each other);
-* `first_ten_failures` / `first_ten_errors` only when at most ten rules fail / error: the code truncates
-  them in `HashMap` iteration order (`len() <= 10` is tested before each push), which is not a function
-  of the rule set; the three counters are always compared;
+* `first_ten_failures` / `first_ten_errors`: since 9993ef8 `create_result` visits the rules in id order, so
+  the truncation (`len() <= 10` tested before each push) is a function of the rule set and the whole
+  `TestExamplesOutput` is compared with `=` (hypothesis `IdOrder`: the id comparison is a total order); the
+  statements about the code BEFORE the repair (`testExamplesUnordered`: HashMap order, `first_ten_*`
+  order-independent only when at most ten rules contribute) are kept for the record (`*_unordered`);
 * `match_traces` through a canonical projection `canon` of the traces (for the tower: the set of route
   ids listed by `get_routes_from_traces`): the forest itself depends on the history (buckets emptied by
   `batch_remove` survive) and on the `count` fields.
@@ -79,38 +81,43 @@ theorem unit_ids_extensional {S S' : View Rule Req Cfg Tr} (hI : PermInv P) (hE 
   ⟨unitIds_perm hI hE hW, unitIds_keys_nodup hW,
    fun id => lookupA_perm id _ _ (unitIds_perm hI hE hW) (unitIds_keys_nodup hW)⟩
 
-/-- test-examples: the three counters always; the two `first_ten_*` maps whenever at most ten rules
-contribute to them (otherwise the code's truncation depends on the iteration order of the HashMap). -/
-theorem test_examples_extensional {S S' : View Rule Req Cfg Tr} (hI : PermInv P) (hE : Equiv canon S S')
-    (hW : View.WF P S) (maxHops : Nat) (dom : Dom) :
-    (testExamples P S maxHops dom).exampleCount = (testExamples P S' maxHops dom).exampleCount ∧
-    (testExamples P S maxHops dom).failureCount = (testExamples P S' maxHops dom).failureCount ∧
-    (testExamples P S maxHops dom).errorCount = (testExamples P S' maxHops dom).errorCount ∧
+/-- **test-examples (as repaired: rules in id order)**: the whole output – the three counters and both
+`first_ten_*` maps with their truncation – is EQUAL for equivalent routers. -/
+theorem test_examples_extensional {S S' : View Rule Req Cfg Tr} (hO : IdOrder P) (hI : PermInv P)
+    (hE : Equiv canon S S') (hW : View.WF P S) (maxHops : Nat) (dom : Dom) :
+    testExamples P S maxHops dom = testExamples P S' maxHops dom :=
+  testExamples_ext hO hI hE hW maxHops dom
+
+/-- For the record, the code BEFORE 9993ef8 (rules in HashMap order): the three counters always; the two
+`first_ten_*` maps only when at most ten rules contribute to them. -/
+theorem test_examples_unordered_extensional {S S' : View Rule Req Cfg Tr} (hI : PermInv P)
+    (hE : Equiv canon S S') (hW : View.WF P S) (maxHops : Nat) (dom : Dom) :
+    (testExamplesUnordered P S maxHops dom).exampleCount = (testExamplesUnordered P S' maxHops dom).exampleCount ∧
+    (testExamplesUnordered P S maxHops dom).failureCount = (testExamplesUnordered P S' maxHops dom).failureCount ∧
+    (testExamplesUnordered P S maxHops dom).errorCount = (testExamplesUnordered P S' maxHops dom).errorCount ∧
     (FailuresBounded P S maxHops dom → ∀ id,
-      lookupE id (testExamples P S maxHops dom).firstTenFailures =
-        lookupE id (testExamples P S' maxHops dom).firstTenFailures) ∧
+      lookupE id (testExamplesUnordered P S maxHops dom).firstTenFailures =
+        lookupE id (testExamplesUnordered P S' maxHops dom).firstTenFailures) ∧
     (ErrorsBounded P S maxHops dom → ∀ id,
-      lookupE id (testExamples P S maxHops dom).firstTenErrors =
-        lookupE id (testExamples P S' maxHops dom).firstTenErrors) := by
-  obtain ⟨h1, h2, h3⟩ := testExamples_counts_ext hI hE hW maxHops dom
-  exact ⟨h1, h2, h3, fun hb id => testExamples_failures_ext hI hE hW maxHops dom hb id,
-    fun hb id => testExamples_errors_ext hI hE hW maxHops dom hb id⟩
+      lookupE id (testExamplesUnordered P S maxHops dom).firstTenErrors =
+        lookupE id (testExamplesUnordered P S' maxHops dom).firstTenErrors) := by
+  obtain ⟨h1, h2, h3⟩ := testExamplesUnordered_counts_ext hI hE hW maxHops dom
+  exact ⟨h1, h2, h3, fun hb id => testExamplesUnordered_failures_ext hI hE hW maxHops dom hb id,
+    fun hb id => testExamplesUnordered_errors_ext hI hE hW maxHops dom hb id⟩
 
 /-- What the untruncated `first_ten_failures` holds for a rule id: the failed examples of the live rule
 with that id, in example order (closed form; `none` when it has none). -/
 theorem first_ten_failures_closed_form {S : View Rule Req Cfg Tr} (maxHops : Nat) (dom : Dom)
     (hb : FailuresBounded P S maxHops dom) (id : Id) :
-    lookupE id (testExamples P S maxHops dom).firstTenFailures =
+    lookupE id (testExamplesUnordered P S maxHops dom).firstTenFailures =
       extendE none (itemsFor id ((events P S maxHops dom).map (failureOf P))) :=
   failures_lookup maxHops dom hb id
 
 /-- **`analysis_extensional`**: all four analyses at once. -/
-theorem analysis_extensional {S S' : View Rule Req Cfg Tr} (hI : PermInv P) (hE : Equiv canon S S')
-    (hW : View.WF P S) (maxHops : Nat) (dom : Dom) :
-    -- test-examples
-    ((testExamples P S maxHops dom).exampleCount = (testExamples P S' maxHops dom).exampleCount ∧
-     (testExamples P S maxHops dom).failureCount = (testExamples P S' maxHops dom).failureCount ∧
-     (testExamples P S maxHops dom).errorCount = (testExamples P S' maxHops dom).errorCount) ∧
+theorem analysis_extensional {S S' : View Rule Req Cfg Tr} (hO : IdOrder P) (hI : PermInv P)
+    (hE : Equiv canon S S') (hW : View.WF P S) (maxHops : Nat) (dom : Dom) :
+    -- test-examples (whole output)
+    testExamples P S maxHops dom = testExamples P S' maxHops dom ∧
     -- unit-ids
     (∀ id, lookupA id (unitIds P S) = lookupA id (unitIds P S')) ∧
     -- explain
@@ -120,10 +127,79 @@ theorem analysis_extensional {S S' : View Rule Req Cfg Tr} (hI : PermInv P) (hE 
     (∀ (T : View Rule Req Cfg Tr) examples withLoop,
       (computeImpacts P S T examples withLoop maxHops dom).map (Impact.project canon) =
         (computeImpacts P S' T examples withLoop maxHops dom).map (Impact.project canon)) :=
-  ⟨testExamples_counts_ext hI hE hW maxHops dom,
+  ⟨testExamples_ext hO hI hE hW maxHops dom,
    (unit_ids_extensional hI hE hW).2.2,
    fun e => explain_ext hI hE hW maxHops dom e,
    fun T examples withLoop => computeImpacts_ext hI hE hW (fun _ => rfl) examples withLoop maxHops dom⟩
+
+/-! ### 1b. What the analyses report for an example IS what the pipeline computes for its request
+
+The clause "the response they report for an example (status, headers, body, log decision) is the one the
+live pipeline produces for that request" over the abstract `Pipe`: every reported value is `P.eval…` applied
+to `router.match_request(request)` for the request `Request::from_example(router.config, example)` – the
+analyses add nothing and drop nothing.  (The request is NOT rebuilt: only `trace_request` rebuilds it.  That
+`P.evalExplain` etc. ARE the live pipeline – C05 / C13 / C04 composed – is outside this model: `Pipe` is
+abstract; the harness oracle `pipeline-agreement` checks it on the implementation.) -/
+
+/-- explain: the reported core (unit trace, backend status, response, log decision) is the pipeline's value on
+the matched routes of the example's request; the chain is `RedirectionLoop::from_example`; an unbuildable
+request is the only error. -/
+theorem explain_reports_pipeline (S : View Rule Req Cfg Tr) (maxHops : Nat) (dom : Dom) (e : Ex) :
+    (∀ msg, P.fromExample S.config e = .error msg →
+      explain P S maxHops dom e = .error ("Invalid example: " ++ msg)) ∧
+    (∀ q, P.fromExample S.config e = .ok q →
+      explain P S maxHops dom e =
+        .ok ⟨e, P.evalExplain (S.matchReq q) q e, S.trace q, some (loop P S maxHops dom e)⟩) := by
+  constructor <;> intro x hx <;> simp [explain, hx]
+
+/-- impact: one record per example, in example order; each is the pipeline's value on the router WITH the
+analysed rule (`S`) and the trace of the trace-unique router (`T`). -/
+theorem impact_reports_pipeline (S T : View Rule Req Cfg Tr) (exs : List Ex) (withLoop : Bool) (maxHops : Nat)
+    (dom : Dom) :
+    (computeImpacts P S T (some exs) withLoop maxHops dom).length = exs.length ∧
+    ∀ i (hi : i < exs.length),
+      (computeImpacts P S T (some exs) withLoop maxHops dom)[i]? = some
+        (match P.fromExample S.config exs[i] with
+         | .error msg => .err exs[i] ("Cannot create query from example: " ++ msg)
+         | .ok q => .ok exs[i] (P.evalExplain (S.matchReq q) q exs[i]) (T.trace q)
+                      (if withLoop then some (loop P S maxHops dom exs[i]) else none)) := by
+  refine ⟨by simp [computeImpacts], ?_⟩
+  intro i hi
+  simp only [computeImpacts, List.getElem?_map, List.getElem?_eq_getElem hi, Option.map_some]
+  cases P.fromExample S.config exs[i] <;> rfl
+
+/-- unit-ids: what is written back into an example is the unit ids the pipeline applied (unit-ids convention)
+on the matched routes of its request; an example whose request cannot be built is returned unchanged. -/
+theorem unit_ids_reports_pipeline (S : View Rule Req Cfg Tr) (e : Ex) :
+    (∀ msg, P.fromExample S.config e = .error msg → unitExample P S e = e) ∧
+    (∀ q, P.fromExample S.config e = .ok q →
+      unitExample P S e = P.setExpected e (P.utUnitIds (P.evalUnit (S.matchReq q) q e))) := by
+  constructor <;> intro x hx <;> simp [unitExample, hx]
+
+/-- test-examples: the verdict on an example is a function of the unit trace the pipeline produced
+(test-examples convention) on the matched routes of its request, and a reported failure carries exactly that
+trace's rule ids, unit ids and `diff(expected)`. -/
+theorem test_example_reports_pipeline (S : View Rule Req Cfg Tr) (maxHops : Nat) (dom : Dom) (r : Rule) (e : Ex)
+    (f : FailedEx Ex Id UId U M) (h : outcome P S maxHops dom r e = .failed f) :
+    ∃ exp q, P.expected e = some exp ∧ P.fromExample S.config e = .ok q ∧ f.ex = e ∧
+      f.ruleIdsApplied = P.utRuleIds (P.evalTest (S.matchReq q) q e) ∧
+      f.unitIdsApplied = P.utUnitIds (P.evalTest (S.matchReq q) q e) ∧
+      f.unitIdsNotAppliedAnymore = P.utDiff (P.evalTest (S.matchReq q) q e) exp ∧
+      (f.redirectionLoop = none ∨ f.redirectionLoop = some (loop P S maxHops dom e)) := by
+  unfold outcome outcomeWith at h
+  cases hexp : P.expected e with
+  | none => simp [hexp] at h
+  | some exp =>
+    cases hq : P.fromExample S.config e with
+    | error msg => simp [hexp, hq] at h
+    | ok q =>
+      simp only [hexp, hq] at h
+      refine ⟨exp, q, rfl, rfl, ?_⟩
+      split at h
+      · cases h; exact ⟨rfl, rfl, rfl, rfl, Or.inl rfl⟩
+      · split at h
+        · cases h; exact ⟨rfl, rfl, rfl, rfl, Or.inr rfl⟩
+        · cases h
 
 /-! ### 2. Project ≡ stand-alone
 
@@ -153,20 +229,14 @@ theorem update_router_equiv (base : St) (c : Cfg) (B : List Rule) (D : ChangeSet
   have hs := repr_build W c rules hn
   exact ⟨W.equiv hL hs (fun x => by rw [← hr x]; simp), W.wf hL⟩
 
-/-- **test-examples: `from_project` ≡ `create_result_without_project`.** -/
-theorem test_examples_project_equals_standalone (hI : PermInv P) (base : St) (c : Cfg) (B : List Rule)
-    (D : ChangeSet Rule Id) (rules : List Rule) (hb : W.Repr base c B)
+/-- **test-examples: `from_project` ≡ `create_result_without_project`** – the whole `TestExamplesOutput`. -/
+theorem test_examples_project_equals_standalone (hO : IdOrder P) (hI : PermInv P) (base : St) (c : Cfg)
+    (B : List Rule) (D : ChangeSet Rule Id) (rules : List Rule) (hb : W.Repr base c B)
     (hv : ValidChangeSet P.ruleId D B) (hn : NodupIds P.ruleId rules)
     (hr : ∀ x, x ∈ rules ↔ x ∈ D.live P.ruleId B) (maxHops : Nat) (dom : Dom) :
-    let p := testExamplesProject A P D maxHops dom base
-    let s := testExamplesStandalone A P c rules maxHops dom
-    p.exampleCount = s.exampleCount ∧ p.failureCount = s.failureCount ∧ p.errorCount = s.errorCount ∧
-    (FailuresBounded P (A.view (A.projectRouter D base)) maxHops dom →
-      ∀ id, lookupE id p.firstTenFailures = lookupE id s.firstTenFailures) ∧
-    (ErrorsBounded P (A.view (A.projectRouter D base)) maxHops dom →
-      ∀ id, lookupE id p.firstTenErrors = lookupE id s.firstTenErrors) := by
+    testExamplesProject A P D maxHops dom base = testExamplesStandalone A P c rules maxHops dom := by
   obtain ⟨hE, hW⟩ := project_router_equiv W base c B D rules hb hv hn hr
-  exact test_examples_extensional hI hE hW maxHops dom
+  exact testExamples_ext hO hI hE hW maxHops dom
 
 /-- **unit-ids: `create_result_from_project` ≡ `create_result_without_project`.** -/
 theorem unit_ids_project_equals_standalone (hI : PermInv P) (base : St) (c : Cfg) (B : List Rule)
@@ -246,21 +316,16 @@ theorem build_perm_equiv (c : Cfg) (rules rules' : List Rule) (hn : NodupIds P.r
   exact ⟨W.equiv h h' (fun x => by simp [hp.mem_iff]), W.wf h⟩
 
 /-- **Rule-order independence** of the four stand-alone analyses. -/
-theorem rule_order_independent (hI : PermInv P) (c : Cfg) (rules rules' : List Rule)
+theorem rule_order_independent (hO : IdOrder P) (hI : PermInv P) (c : Cfg) (rules rules' : List Rule)
     (hn : NodupIds P.ruleId rules) (hp : rules.Perm rules') (maxHops : Nat) (dom : Dom) :
-    ((testExamplesStandalone A P c rules maxHops dom).exampleCount =
-        (testExamplesStandalone A P c rules' maxHops dom).exampleCount ∧
-     (testExamplesStandalone A P c rules maxHops dom).failureCount =
-        (testExamplesStandalone A P c rules' maxHops dom).failureCount ∧
-     (testExamplesStandalone A P c rules maxHops dom).errorCount =
-        (testExamplesStandalone A P c rules' maxHops dom).errorCount) ∧
+    testExamplesStandalone A P c rules maxHops dom = testExamplesStandalone A P c rules' maxHops dom ∧
     (∀ id, lookupA id (unitIdsStandalone A P c rules) = lookupA id (unitIdsStandalone A P c rules')) ∧
     (∀ e, (explainStandalone A P c rules maxHops dom e).map (ExplainOut.project canon) =
         (explainStandalone A P c rules' maxHops dom e).map (ExplainOut.project canon)) ∧
     (∀ I : ImpactSpec Rule Dom, (impactStandalone A P c rules I).map (Impact.project canon) =
         (impactStandalone A P c rules' I).map (Impact.project canon)) := by
   obtain ⟨hE, hW⟩ := build_perm_equiv W c rules rules' hn hp
-  refine ⟨testExamples_counts_ext hI hE hW maxHops dom, (unit_ids_extensional hI hE hW).2.2,
+  refine ⟨testExamples_ext hO hI hE hW maxHops dom, (unit_ids_extensional hI hE hW).2.2,
     fun e => explain_ext hI hE hW maxHops dom e, ?_⟩
   intro I
   unfold impactStandalone
@@ -398,20 +463,15 @@ every base list `B` with distinct ids, every consistent change-set `D`, and the 
 theorem project_equals_standalone {Pl Ex UId UT Core U M Dom : Type} [DecidableEq U] [DecidableEq M]
     (rebuild : Req → Req)
     (P : Pipe (Route × Pl) Req Unit Ex String UId UT Core U M Dom)
-    (hid : P.ruleId = fun rp => rp.1.id) (hI : PermInv P)
+    (hid : P.ruleId = fun rp => rp.1.id) (hO : IdOrder P) (hI : PermInv P)
     (B : List (Route × Pl)) (hB : NodupIds P.ruleId B) (D : ChangeSet (Route × Pl) String)
     (hv : ValidChangeSet P.ruleId D B.reverse) (rules : List (Route × Pl))
     (hn : NodupIds P.ruleId rules) (hr : ∀ x, x ∈ rules ↔ x ∈ D.live P.ruleId B.reverse)
     (maxHops : Nat) (dom : Dom) :
     let A := withPayload (Pl := Pl) (towerAlg E rebuild) (fun r : Route => r.id)
     let base := A.build () B
-    -- test-examples
-    ((testExamplesProject A P D maxHops dom base).exampleCount =
-        (testExamplesStandalone A P () rules maxHops dom).exampleCount ∧
-     (testExamplesProject A P D maxHops dom base).failureCount =
-        (testExamplesStandalone A P () rules maxHops dom).failureCount ∧
-     (testExamplesProject A P D maxHops dom base).errorCount =
-        (testExamplesStandalone A P () rules maxHops dom).errorCount) ∧
+    -- test-examples (whole output)
+    testExamplesProject A P D maxHops dom base = testExamplesStandalone A P () rules maxHops dom ∧
     -- unit-ids
     (∀ id, lookupA id (unitIdsProject A P D base) = lookupA id (unitIdsStandalone A P () rules)) ∧
     -- explain
@@ -423,8 +483,8 @@ theorem project_equals_standalone {Pl Ex UId UT Core U M Dom : Type} [DecidableE
   intro A base
   have W : AlgLaws A P.ruleId traceIds := hid ▸ routerLaws E Pl rebuild
   have hb : W.Repr base () B.reverse := repr_build W () B hB
-  have t := test_examples_project_equals_standalone W hI base () B.reverse D rules hb hv hn hr maxHops dom
-  exact ⟨⟨t.1, t.2.1, t.2.2.1⟩,
+  have t := test_examples_project_equals_standalone W hO hI base () B.reverse D rules hb hv hn hr maxHops dom
+  exact ⟨t,
     (unit_ids_project_equals_standalone W hI base () B.reverse D rules hb hv hn hr).2,
     fun e => explain_project_equals_standalone W hI base () B.reverse D rules hb hv hn hr maxHops dom e,
     fun I => impact_project_equals_standalone W hI base () B.reverse D rules hb hv hn hr I⟩
@@ -437,18 +497,13 @@ histories are over routes). -/
 theorem project_equals_standalone_after_history {Ex UId UT Core U M Dom : Type}
     [DecidableEq U] [DecidableEq M] (rebuild : Req → Req)
     (P : Pipe Route Req Unit Ex String UId UT Core U M Dom) (hid : P.ruleId = fun r => r.id)
-    (hI : PermInv P) (h : List Op) (hvh : ValidHistory h [])
+    (hO : IdOrder P) (hI : PermInv P) (h : List Op) (hvh : ValidHistory h [])
     (D : ChangeSet Route String) (hv : ValidChangeSet P.ruleId D (liveOps h []))
     (rules : List Route) (hn : NodupIds P.ruleId rules)
     (hr : ∀ x, x ∈ rules ↔ x ∈ D.live P.ruleId (liveOps h [])) (maxHops : Nat) (dom : Dom) :
     let A := towerAlg E rebuild
     let base := runOps E h (Router.empty E)
-    ((testExamplesProject A P D maxHops dom base).exampleCount =
-        (testExamplesStandalone A P () rules maxHops dom).exampleCount ∧
-     (testExamplesProject A P D maxHops dom base).failureCount =
-        (testExamplesStandalone A P () rules maxHops dom).failureCount ∧
-     (testExamplesProject A P D maxHops dom base).errorCount =
-        (testExamplesStandalone A P () rules maxHops dom).errorCount) ∧
+    testExamplesProject A P D maxHops dom base = testExamplesStandalone A P () rules maxHops dom ∧
     (∀ id, lookupA id (unitIdsProject A P D base) = lookupA id (unitIdsStandalone A P () rules)) ∧
     (∀ e, (explainProject A P D maxHops dom e base).map (ExplainOut.project traceIds) =
         (explainStandalone A P () rules maxHops dom e).map (ExplainOut.project traceIds)) ∧
@@ -458,8 +513,8 @@ theorem project_equals_standalone_after_history {Ex UId UT Core U M Dom : Type}
   obtain ⟨W, hWr⟩ := towerLaws_of_rid E rebuild P.ruleId hid
   have hb : W.Repr base () (liveOps h []) :=
     hWr _ _ (Rio.C02.repr_run E h (Router.empty E) [] (Rio.C02.repr_empty E) hvh)
-  have t := test_examples_project_equals_standalone W hI base () _ D rules hb hv hn hr maxHops dom
-  exact ⟨⟨t.1, t.2.1, t.2.2.1⟩,
+  have t := test_examples_project_equals_standalone W hO hI base () _ D rules hb hv hn hr maxHops dom
+  exact ⟨t,
     (unit_ids_project_equals_standalone W hI base () _ D rules hb hv hn hr).2,
     fun e => explain_project_equals_standalone W hI base () _ D rules hb hv hn hr maxHops dom e,
     fun I => impact_project_equals_standalone W hI base () _ D rules hb hv hn hr I⟩
@@ -480,6 +535,7 @@ deriving DecidableEq, Repr
 
 def xPipe : Pipe XRule Nat Unit Nat Nat Nat (List Nat) (List Nat × Option Nat) Nat Nat Unit where
   ruleId r := r.id
+  idLe a b := decide (a ≤ b)
   examples r := r.examples
   fromExample _ e := if e = 0 then .error "empty url" else .ok e
   expected _ := some []
@@ -506,6 +562,10 @@ example : PermInv xPipe :=
    fun R R' q e hp _ => by simp only [xPipe, hp.any_eq],
    fun R R' q e hp _ => by simp only [xPipe, hp.any_eq],
    fun R R' q e hp _ => by simp only [xPipe, hp.any_eq]⟩
+
+example : IdOrder xPipe :=
+  ⟨fun a b => by simp [xPipe]; omega, fun a b c h1 h2 => by simp [xPipe] at *; omega,
+   fun a b h1 h2 => by simp [xPipe] at *; omega⟩
 
 def xAlg := listAlg (Req := Nat) (Cfg := Unit) (fun r : XRule => r.id) (fun _ r q => r.path == q)
 
